@@ -52,7 +52,8 @@ class EvalModel:
                 for k, a in enumerate(c.args):
                     o = single_origin(trace_operand(r, a, through_calls=THROUGH))
                     if o is not None and o.kind == 'param' and o.data == self.node_param and not o.proj and k + 1 <= g.arg_count \
-                            and 'parser::ExprAST' in g.locals[k + 1]['ty'] and g.locals[0]['ty'] == r.locals[0]['ty']:
+                            and 'parser::ExprAST' in g.locals[k + 1]['ty'] and (g.locals[0]['ty'] == r.locals[0]['ty'] or re.match(r'^<\w+ as [^>]*(<.*>)?>::\w+$', g.locals[0]['ty'])):
+                        # (second form: a generic `fn accept<V: Visitor>(&self, v: &mut V) -> V::Out`, instantiated once)
                         cands.append((g, k + 1))
             if len(cands) != 1:
                 break
